@@ -68,8 +68,22 @@ def install(mon, fault):
     shutil_proxy = _Proxy(_shutil, {"move": move})
 
     class File:
+        """Buffered binary file: the tail of what was written (less than one
+        buffer, 4 KiB here) may sit in the writer's user-space buffer until
+        flush() / close() - which bytes a real BufferedWriter holds back
+        depends on the sizes of the chunks, so the adversarial choice within
+        its capacity is made.  A process that dies loses that tail."""
+
+        HOLD = 4096
+
         def __init__(self, f):
             self._f = f
+            self._pending = b""
+
+        def _drain(self):
+            if self._pending:
+                self._f.write(self._pending)
+                self._pending = b""
 
         def write(self, data):
             if st["armed"]:
@@ -77,15 +91,29 @@ def install(mon, fault):
                 n = len(data)
                 if prefix is not None and st["bytes"] + n > prefix:
                     keep = max(0, prefix - st["bytes"])
+                    self._drain()
                     self._f.write(bytes(data)[:keep])
                     self._f.flush()
                     crash(f"after {prefix} bytes of the stream")
                 st["bytes"] += n
+                data = bytes(data)
+                self._drain()
+                k = min(len(data), self.HOLD)
+                self._f.write(data[:len(data) - k])
+                self._pending = data[len(data) - k:]
+                return n
+            self._drain()
             return self._f.write(data)
+
+        def flush(self):
+            self._drain()
+            return self._f.flush()
 
         def close(self):
             if st["armed"] and not self._f.closed:
                 op("close")
+            if not self._f.closed:
+                self._drain()
             return self._f.close()
 
         def __enter__(self):
